@@ -185,15 +185,38 @@ def set_config(case):
     _verif.ROWS_PER_THREAD = case.get("R") or 1_000_000
 
 
+def pl_to_numpy(s_):
+    """polars Series -> ndarray; a temporal value that is not null but holds the NaT bit pattern (a null that lost its
+    validity bit) must not pass for a null: it is replaced by a value no embedding decodes."""
+    a = s_.to_numpy()
+    if s_.dtype.is_temporal() and len(s_):
+        bad = (s_.to_physical() == np.iinfo(np.int64).min).fill_null(False).to_numpy()
+        if bad.any():
+            a = a.copy()
+            a[bad] = np.array(12345, dtype="int64").view(a.dtype) if a.dtype.kind in "mM" else 12345
+    return a
+
+
+def pd_to_numpy(s_):
+    """pandas Series / Index -> ndarray; same guard for arrow-backed temporal data (NaT bit pattern with the validity bit set)."""
+    a = s_.to_numpy()
+    if a.dtype.kind in "mM" and isinstance(getattr(s_, "dtype", None), pd.ArrowDtype) and len(a):
+        bad = np.isnat(a) & ~np.asarray(s_.isna())
+        if bad.any():
+            a = a.copy()
+            a[bad] = np.array(12345, dtype="int64").view(a.dtype)
+    return a
+
+
 def to_1d(obj):
     if isinstance(obj, pl.Series):
-        return obj.to_numpy(), None
+        return pl_to_numpy(obj), None
     if isinstance(obj, pd.Series):
-        return obj.to_numpy(), obj.index
+        return pd_to_numpy(obj), obj.index
     if isinstance(obj, pd.DataFrame) and obj.shape[1] == 1:
-        return obj.iloc[:, 0].to_numpy(), obj.index
+        return pd_to_numpy(obj.iloc[:, 0]), obj.index
     if isinstance(obj, pl.DataFrame) and obj.shape[1] == 1:
-        return obj.to_series(0).to_numpy(), None
+        return pl_to_numpy(obj.to_series(0)), None
     return np.asarray(obj), None
 
 
